@@ -82,9 +82,24 @@ def check_archive(ctx, ms, members, blob, variant, attrs):
     from dissect.hypervisor.util import vmtar
 
     det = {"members": ms, "variant": variant}
-    for mode in ("plain", "gzip", "gzip-multi", "class"):
+    import os
+    import tempfile
+    keep = []
+    for mode in ("plain", "gzip", "gzip-multi", "class", "path", "gzip-path", "gzip-filehandle"):
         try:
-            if mode == "plain":
+            if mode in ("path", "gzip-path", "gzip-filehandle"):
+                # the archive as a real file (its compressed size is what the file system reports), by name and as an open handle
+                tf = tempfile.NamedTemporaryFile(prefix="verif-c20-", suffix=".vgz" if mode != "path" else ".vtar", delete=False)
+                tf.write(blob if mode == "path" else gzip.compress(blob))
+                tf.close()
+                keep.append(tf.name)
+                if mode == "gzip-filehandle":
+                    fh = open(tf.name, "rb")   # noqa: SIM115
+                    keep.append(fh)
+                    t = vmtar.open(fileobj=fh)
+                else:
+                    t = vmtar.open(tf.name)
+            elif mode == "plain":
                 t = vmtar.open(fileobj=io.BytesIO(blob))
             elif mode == "gzip":
                 t = vmtar.open(fileobj=io.BytesIO(gzip.compress(blob)))
@@ -126,6 +141,14 @@ def check_archive(ctx, ms, members, blob, variant, attrs):
                     if byname != m["data"] or not same:
                         ctx.violation({**attrs, "fail": "extract-mismatch", "mode": mode, "by": "name"}, {**det, "member": repr(m["name"]), "got_len": len(byname), "want_len": len(m["data"])})
                         return False
+    for k in keep:
+        try:
+            k.close() if hasattr(k, "close") else os.unlink(k)
+        except OSError:
+            pass
+    for k in keep:
+        if isinstance(k, str) and os.path.exists(k):
+            os.unlink(k)
     # an ordinary tar archive behind other bytes in the same file, handed over as a file object positioned at its start, is
     # read from there (as the standard reader does).  Not done for gzip wrapping: the standard GzipFile rewinds the
     # underlying file to offset 0 on a backward seek, whoever calls it.
